@@ -2,6 +2,7 @@ package iscp
 
 import (
 	"context"
+	"fmt"
 	"time"
 
 	"github.com/aptpod/iscp-go/log"
@@ -2358,3 +2359,360 @@ func zzC03ePreregisteredDev1() { zzDeviations = 1; zzC03ePreregistered() }
 func zzC03fLaggingConsumerDev1() { zzDeviations = 1; zzC03fLaggingConsumer() }
 func zzC10g2NoGoroutineLeftAfterOutageDev1() { zzDeviations = 1; zzC10g2NoGoroutineLeftAfterOutage() }
 func zzC10g3BurstDuringCloseDev1() { zzDeviations = 1; zzC10g3BurstDuringClose() }
+
+// C10.g4: goroutine census when Close arrives during an outage: the transport died, the redials
+// keep failing, streams of both directions are open and wait to be resumed; Conn.Close ends the
+// recovery and afterwards no goroutine of the library is left, and nothing dials any more.
+func zzC10g4CloseDuringOutage() {
+	b := zzNewBroker()
+	zzServeStreams(b)
+	ev := &zzEvents{}
+	conf := b.config()
+	n := 0
+	randomString = func() string { n++; return "call-" + string(rune('a'+n)) }
+	conn, err := ConnectWithConfig(conf)
+	vf.Assume(err == nil)
+	vf.Settle()
+	vf.Deviations(zzDeviations)
+	ctx := context.Background()
+	which := vf.Choose("open.streams", 4) // bit 0: upstream, bit 1: downstream
+	if which&1 != 0 {
+		_, err = conn.OpenUpstream(ctx, "session", WithUpstreamFlushPolicyNone(), WithUpstreamClosedEventHandler(ev), WithUpstreamCloseTimeout(time.Second))
+		vf.Assume(err == nil)
+	}
+	if which&2 != 0 {
+		_, err = conn.OpenDownstream(ctx, []*message.DownstreamFilter{{SourceNodeID: "node"}}, WithDownstreamClosedEventHandler(ev))
+		vf.Assume(err == nil)
+	}
+	vf.Settle()
+	// every redial fails from now on
+	b.maxDials = 1000
+	dialErr := fmt.Errorf("network unreachable")
+	for i := 0; i < 64; i++ {
+		b.dialErrs = append(b.dialErrs, dialErr)
+	}
+	b.dialErrs[0] = nil
+	b.last().Close()
+	vf.Settle()
+	vf.Advance(11 * time.Second)
+	vf.Advance(2 * time.Second)
+	vf.Assert("recovery-in-progress", b.dials >= 2 && !conn.state.Is(connStatusConnected))
+	cctx, cancel := context.WithTimeout(ctx, 5*time.Second)
+	var cerr error
+	closed := false
+	go func() { cerr = conn.Close(cctx); closed = true }()
+	vf.Settle()
+	for i := 0; i < 8 && !closed; i++ {
+		vf.Advance(time.Second)
+	}
+	cancel()
+	vf.Assert("close-returns", closed)
+	_ = cerr
+	dials := b.dials
+	vf.Advance(60 * time.Second)
+	vf.Assert("nothing-dials-after-close", b.dials == dials)
+	vf.Assert("no-goroutine-left", vf.Leaked() == "")
+	vf.Reach("end")
+}
+
+type zzSlowHooks struct {
+	zzHooks
+	delay time.Duration
+}
+
+func (h *zzSlowHooks) HookAfter(id uuid.UUID, r UpstreamChunkResult) {
+	time.Sleep(h.delay)
+	h.zzHooks.HookAfter(id, r)
+}
+
+// C01.h: slow hooks. The application's ack hook takes a while per call, so callbacks queue up behind
+// it while the stream is closed; every acknowledged chunk is still reported to the ack hook exactly
+// once with the broker's code, and every chunk to the send hook once, nothing is dropped at Close.
+func zzC01hSlowHooks() {
+	b := zzNewBroker()
+	zzServeStreams(b)
+	base := b.handler
+	b.handler = func(t *zzTr, m message.Message) bool {
+		if r, ok := m.(*message.UpstreamChunk); ok {
+			t.in <- zzEncode(&message.UpstreamChunkAck{StreamIDAlias: r.StreamIDAlias, Results: []*message.UpstreamChunkResult{{SequenceNumber: r.StreamChunk.SequenceNumber, ResultCode: message.ResultCodeSucceeded, ResultString: "ok"}}})
+			return true
+		}
+		return base(t, m)
+	}
+	conn := zzConnect(b)
+	ctx := context.Background()
+	hooks := &zzSlowHooks{delay: 50 * time.Millisecond}
+	up, err := conn.OpenUpstream(ctx, "session", WithUpstreamFlushPolicyImmediately(), WithUpstreamQoS(message.QoSReliable),
+		WithUpstreamReceiveAckHooker(hooks), WithUpstreamSendDataPointsHooker(hooks), WithUpstreamCloseTimeout(time.Second))
+	vf.Assume(err == nil)
+	vf.Settle()
+	n := 2 + vf.Choose("chunks", 3)
+	id := &message.DataID{Name: "n", Type: "t"}
+	for i := 0; i < n; i++ {
+		vf.Assert("write-accepted", up.WriteDataPoints(ctx, id, &message.DataPoint{ElapsedTime: time.Duration(i + 1)}) == nil)
+	}
+	// Close right away: the acks arrive at once, the hook calls pile up behind the slow first one
+	closed := false
+	var cerr error
+	go func() { cerr = up.Close(ctx); closed = true }()
+	for i := 0; i < 40 && !closed; i++ {
+		vf.Advance(50 * time.Millisecond)
+	}
+	vf.Assert("close-ok", closed && cerr == nil)
+	vf.Advance(2 * time.Second) // the hooks may finish after Close; they must not be dropped
+	vf.Assert("every-result-reported-to-the-ack-hook-once", len(hooks.acked) == n)
+	for i, r := range hooks.acked {
+		vf.Assert("results-in-order-with-the-brokers-code", r.SequenceNumber == uint32(i+1) && r.ResultCode == message.ResultCodeSucceeded && r.ResultString == "ok")
+	}
+	vf.Assert("every-chunk-announced-to-the-send-hook-once", len(hooks.sent) == n)
+	conn.Close(ctx)
+	vf.Reach("end")
+}
+
+// C03.g: several upstreams first seen within one ack interval: the client announces one alias per
+// upstream in a single ack, and what the broker decodes from that ack is, alias by alias, exactly
+// the upstream info the client then resolves that alias to.
+func zzC03gTwoUpstreamsOneAck() {
+	b := zzNewBroker()
+	zzServeStreams(b)
+	conn := zzConnect(b)
+	tr := b.last()
+	ctx := context.Background()
+	down, err := conn.OpenDownstream(ctx, []*message.DownstreamFilter{{SourceNodeID: "node"}}, WithDownstreamAckFlushInterval(50*time.Millisecond))
+	vf.Assume(err == nil)
+	vf.Settle()
+	var alias uint32
+	for _, m := range tr.msgs() {
+		if r, ok := m.(*message.DownstreamOpenRequest); ok {
+			alias = r.DesiredStreamIDAlias
+		}
+	}
+	n := 2 + vf.Choose("upstreams", 2)
+	infos := []*message.UpstreamInfo{
+		{SessionID: "sa", SourceNodeID: "node", StreamID: uuid.UUID{0xaa, 1}},
+		{SessionID: "sb", SourceNodeID: "node", StreamID: uuid.UUID{0xbb, 2}},
+		{SessionID: "sc", SourceNodeID: "node", StreamID: uuid.UUID{0xcc, 3}},
+	}[:n]
+	for i, in := range infos {
+		tr.push(&message.DownstreamChunk{StreamIDAlias: alias, UpstreamOrAlias: in, StreamChunk: &message.StreamChunk{SequenceNumber: uint32(i + 1),
+			DataPointGroups: []*message.DataPointGroup{{DataIDOrAlias: &message.DataID{Name: "x", Type: "t"}, DataPoints: []*message.DataPoint{{ElapsedTime: 1}}}}}})
+	}
+	vf.Settle()
+	for i := range infos {
+		c, e := down.ReadDataPoints(ctx)
+		vf.Assert("full-form-chunk-read", e == nil && c != nil && *c.UpstreamInfo == *infos[i])
+	}
+	vf.Advance(50 * time.Millisecond)
+	announced := map[uint32]message.UpstreamInfo{}
+	for _, m := range tr.msgs() {
+		if a, ok := m.(*message.DownstreamChunkAck); ok {
+			for k, v := range a.UpstreamAliases {
+				_, dup := announced[k]
+				vf.Assert("an-alias-is-announced-once", !dup)
+				announced[k] = *v
+			}
+		}
+	}
+	vf.Assert("one-alias-per-upstream-announced", len(announced) == n)
+	for _, in := range infos {
+		cnt := 0
+		for _, v := range announced {
+			if v == *in {
+				cnt++
+			}
+		}
+		vf.Assert("each-upstream-announced-as-itself-exactly-once", cnt == 1)
+	}
+	// the broker now uses the aliases: each resolves to what was announced for it
+	seq := uint32(10)
+	for a, want := range announced {
+		tr.push(&message.DownstreamChunk{StreamIDAlias: alias, UpstreamOrAlias: message.UpstreamAlias(a), StreamChunk: &message.StreamChunk{SequenceNumber: seq,
+			DataPointGroups: []*message.DataPointGroup{{DataIDOrAlias: &message.DataID{Name: "x", Type: "t"}, DataPoints: []*message.DataPoint{{ElapsedTime: 2}}}}}})
+		vf.Settle()
+		c, e := down.ReadDataPoints(ctx)
+		vf.Assert("alias-resolves-to-the-announced-upstream", e == nil && c != nil && c.SequenceNumber == seq && *c.UpstreamInfo == want)
+		seq++
+	}
+	conn.Close(ctx)
+	vf.Reach("end")
+}
+
+// C07.e: one stream's failing request leaves its siblings alone: an open (or metadata / call)
+// request that runs into its caller's deadline because the broker does not answer it must not
+// redial the shared connection, resume, clear or retransmit anything of the stream that is already
+// open on it.
+func zzC07eFailedRequestLeavesSiblingsAlone() {
+	b := zzNewBroker()
+	zzServeStreams(b)
+	serve := b.handler
+	silentFor := vf.Choose("request.that.times.out", 4)
+	b.handler = func(t *zzTr, m message.Message) bool {
+		switch r := m.(type) {
+		case *message.UpstreamOpenRequest:
+			if silentFor == 0 && r.SessionID == "second" {
+				return true
+			}
+		case *message.DownstreamOpenRequest:
+			if silentFor == 1 {
+				return true
+			}
+		case *message.UpstreamMetadata:
+			if silentFor == 2 {
+				return true
+			}
+		case *message.UpstreamCall:
+			if silentFor == 3 {
+				return true
+			}
+		}
+		return serve(t, m)
+	}
+	ev := &zzEvents{}
+	conf := b.config()
+	conf.DisconnectedEventHandler = ev
+	conf.ReconnectedEventHandler = ev
+	n := 0
+	randomString = func() string { n++; return "call-" + string(rune('a'+n)) }
+	conn, err := ConnectWithConfig(conf)
+	vf.Assume(err == nil)
+	vf.Settle()
+	vf.Deviations(zzDeviations)
+	ctx := context.Background()
+	tr := b.last()
+	qos := message.QoSUnreliable
+	if vf.Choose("sibling.reliable", 2) == 1 {
+		qos = message.QoSReliable
+	}
+	a, err := conn.OpenUpstream(ctx, "first", WithUpstreamFlushPolicyNone(), WithUpstreamQoS(qos), WithUpstreamResumedEventHandler(ev), WithUpstreamClosedEventHandler(ev))
+	vf.Assume(err == nil)
+	vf.Settle()
+	id := &message.DataID{Name: "n", Type: "t"}
+	vf.Assume(a.WriteDataPoints(ctx, id, &message.DataPoint{ElapsedTime: 1}) == nil && a.Flush(ctx) == nil)
+	vf.Settle()
+	before, _ := conn.sentStorage.List(ctx, a.ID)
+	vf.Assume(len(before) == 1)
+	chunksBefore := len(zzUpstreamChunksOf(tr))
+	dctx, cancel := context.WithTimeout(ctx, 100*time.Millisecond)
+	defer cancel()
+	var rerr error
+	done := false
+	go func() {
+		switch silentFor {
+		case 0:
+			_, rerr = conn.OpenUpstream(dctx, "second")
+		case 1:
+			_, rerr = conn.OpenDownstream(dctx, []*message.DownstreamFilter{{SourceNodeID: "n"}})
+		case 2:
+			rerr = conn.SendMetadata(dctx, &message.BaseTime{SessionID: "s", Name: "n"})
+		case 3:
+			_, rerr = conn.SendCall(dctx, &UpstreamCall{DestinationNodeID: "d", Name: "n", Type: "t"})
+		}
+		done = true
+	}()
+	vf.Settle()
+	vf.Advance(150 * time.Millisecond)
+	vf.Advance(2 * time.Second)
+	vf.Assert("failing-request-returns-an-error", done && rerr != nil)
+	vf.Assert("shared-connection-not-redialled", b.dials == 1 && ev.disconnected == 0 && ev.reconnected == 0 && conn.state.Is(connStatusConnected))
+	vf.Assert("sibling-not-resumed-or-closed", ev.upResumed == 0 && ev.upClosed == 0)
+	after, _ := conn.sentStorage.List(ctx, a.ID)
+	vf.Assert("sibling-store-untouched", len(after) == 1)
+	vf.Assert("sibling-retransmits-nothing", len(zzUpstreamChunksOf(b.last())) == chunksBefore && b.last() == tr)
+	vf.Assert("sibling-still-works", a.WriteDataPoints(ctx, id, &message.DataPoint{ElapsedTime: 2}) == nil && a.Flush(ctx) == nil)
+	conn.Close(ctx)
+	vf.Reach("end")
+}
+
+// C16.h: a reconnect between a call and its ack: the transport dies after the broker has taken the
+// call; the connection recovers on its own; the broker's ack (and, for SendCallAndWaitReplayCall, the
+// reply) arrive on the new connection: the caller gets exactly them - not a connection error from a
+// connection that was never closed by the application.
+func zzC16hReconnectBetweenCallAndAck() {
+	b := zzNewBroker()
+	b.handler = func(t *zzTr, m message.Message) bool { return true } // the scenario answers by hand
+	conf := b.config()
+	n := 0
+	randomString = func() string { n++; return "call-" + string(rune('a'+n)) }
+	conn, err := ConnectWithConfig(conf)
+	vf.Assume(err == nil)
+	vf.Settle()
+	vf.Deviations(zzDeviations)
+	ctx := context.Background()
+	tr1 := b.last()
+	waitReply := vf.Choose("wait.for.reply", 2) == 1
+	var id string
+	var reply *DownstreamReplyCall
+	var cerr error
+	done := false
+	go func() {
+		if waitReply {
+			reply, cerr = conn.SendCallAndWaitReplayCall(ctx, &UpstreamCall{DestinationNodeID: "dst", Name: "n", Type: "t"})
+		} else {
+			id, cerr = conn.SendCall(ctx, &UpstreamCall{DestinationNodeID: "dst", Name: "n", Type: "t"})
+		}
+		done = true
+	}()
+	vf.Settle()
+	calls := zzCallsOf(tr1)
+	vf.Assume(len(calls) == 1 && !done)
+	callID := calls[0].CallID
+	// the transport dies before the ack; keepalive notices; the connection recovers
+	tr1.Close()
+	vf.Settle()
+	vf.Advance(11 * time.Second)
+	vf.Advance(2 * time.Second)
+	vf.Assert("recovered", b.dials == 2 && conn.state.Is(connStatusConnected))
+	tr2 := b.last()
+	vf.Assert("caller-still-waiting-not-failed", !done)
+	tr2.push(&message.UpstreamCallAck{CallID: callID, ResultCode: message.ResultCodeSucceeded})
+	if waitReply {
+		tr2.push(&message.DownstreamCall{CallID: "r1", RequestCallID: callID, SourceNodeID: "dst", Name: "rn", Type: "rt"})
+	}
+	vf.Settle()
+	vf.Assert("caller-gets-the-ack-that-arrived-after-the-reconnect", done && cerr == nil)
+	if done && cerr == nil {
+		if waitReply {
+			vf.Assert("reply-is-for-this-call", reply != nil && reply.RequestCallID == callID && reply.CallID == "r1")
+		} else {
+			vf.Assert("ack-is-for-this-call", id == callID)
+		}
+	}
+	conn.Close(ctx)
+	vf.Reach("end")
+}
+
+// C08.h: Conn.Close during a redial whose connect handshake the broker never completes (it accepts
+// the transport and stays silent): Close returns by its context deadline, and once it has returned
+// nothing of the connection survives the end of that handshake.
+func zzC08hCloseDuringSilentHandshake() {
+	b := zzNewBroker()
+	zzServeStreams(b)
+	b.muteFrom = 1 // the first connection works, every later one is accepted and then ignored
+	conf := b.config()
+	n := 0
+	randomString = func() string { n++; return "call-" + string(rune('a'+n)) }
+	conn, err := ConnectWithConfig(conf)
+	vf.Assume(err == nil)
+	vf.Settle()
+	vf.Deviations(zzDeviations)
+	ctx := context.Background()
+	b.last().Close()
+	vf.Settle()
+	vf.Advance(11 * time.Second)
+	vf.Advance(2 * time.Second)
+	vf.Assert("redial-in-progress", b.dials == 2 && !conn.state.Is(connStatusConnected))
+	cctx, cancel := context.WithTimeout(ctx, time.Second)
+	defer cancel()
+	closed := false
+	go func() { conn.Close(cctx); closed = true }()
+	vf.Settle()
+	vf.Advance(time.Second + 100*time.Millisecond)
+	vf.Assert("close-returns-by-its-context-deadline", closed)
+	// the stuck handshake ends (the broker goes away): whatever it had built is torn down
+	b.last().Close()
+	vf.Settle()
+	vf.Advance(30 * time.Second)
+	vf.Assert("nothing-dials-after-close", b.dials == 2)
+	vf.Assert("no-goroutine-left", vf.Leaked() == "")
+	vf.Reach("end")
+}
